@@ -193,4 +193,21 @@ def strategy(tier):
     return st.builds(lambda s, orders: dict(s, orders=orders), base, st.lists(st.lists(st.integers(0, 7), min_size=1, max_size=10), min_size=4, max_size=30))
 
 
-PARTS = [Part("orders", run, strategy, {"quick": 320, "thorough": 8000}, rule=RULE)]
+def strat_directed(tier):
+    from hypothesis import strategies as st
+
+    TIER["max_orders"] = 120 if tier == "quick" else MAX_ORDERS
+    base = gen.directed_scenario(gen.fork_join_ir(split=False), max_choices=0, p_fail=0.15)
+
+    def fix(s, orders):
+        # outcomes fixed per task: keep the first row only
+        s = dict(s, outcomes={k: v[:1] for k, v in s["outcomes"].items()}, orders=orders)
+        return s
+
+    return st.builds(fix, base, st.lists(st.lists(st.integers(0, 7), min_size=1, max_size=10), min_size=4, max_size=30))
+
+
+PARTS = [
+    Part("orders", run, strategy, {"quick": 256, "thorough": 8000}, rule=RULE),
+    Part("fork-join-orders", run, strat_directed, {"quick": 160, "thorough": 5000}, rule="directed fork-join definitions (branches that arrive conditionally or never) under all completion orders"),
+]
